@@ -350,6 +350,32 @@ func (vc *VC) emitVariant(o *Obl, dir string, idx int, variant int) (string, int
 					}
 				}
 			}
+			// the position of a checksum in a listing (slot Skolem function of "listedAt"): for an index obligation, the slots
+			// of the checksum ids computed on this path are positions worth looking at
+			if o.Kind == "idx" && strings.Contains(ctx, "(u_slot ") {
+				var sids []string
+				for sy := range pathSyms {
+					if strings.HasPrefix(sy, "sid!") {
+						sids = append(sids, sy)
+					}
+				}
+				// the most recently computed ids first (the value just looked up), a few only
+				sort.Slice(sids, func(i, j int) bool { return symNumber(sids[i]) > symNumber(sids[j]) })
+				if len(sids) > 3 {
+					sids = sids[:3]
+				}
+				for _, sy := range sids {
+					terms = append(terms, sy)
+				}
+				for _, a := range boundApps(ctx, "u_slot") {
+					parts := splitSexp(a)
+					for _, sy := range sids {
+						if len(terms) < 14 {
+							terms = append(terms, "(u_slot "+parts[1]+" "+sy+")")
+						}
+					}
+				}
+			}
 			// ground applications of the slot Skolem function are positions too
 			for _, g := range groundApps(ctx+goal, "u_slot") {
 				if len(terms) < 14 {
@@ -360,6 +386,10 @@ func (vc *VC) emitVariant(o *Obl, dir string, idx int, variant int) (string, int
 			seen := map[string]bool{}
 			qnames := map[string]string{}
 			maxInst := 400
+			if vc.Con != nil && vc.Con.Has("loop-candidates") {
+				// contracts that opt into more candidate terms also get more instances (the latest facts come last)
+				maxInst = 2000
+			}
 			if v := os.Getenv("GOVC_MAXINST"); v != "" {
 				fmt.Sscanf(v, "%d", &maxInst)
 			}
